@@ -183,7 +183,7 @@ def opPPFilter (j : Json) : Json :=
     | none => Json.mkObj [("assert", Json.bool true)]
   | kind =>
     let out := match kind with
-      | "gcc" => gccFilter fname true lines
+      | "gcc" => gccFilterTop fname lines
       | _ => pcppFilter fname true lines
     Json.mkObj [("out", Json.arr (out.map jstr).toArray)]
 
